@@ -1,4 +1,4 @@
-import MxModel.Proofs.EditMachineOps2
+import MxModel.Proofs.EditMachineOps3
 /-!
 # Every operation of the combined machine keeps the certificate invariant; histories
 
@@ -6,11 +6,11 @@ import MxModel.Proofs.EditMachineOps2
 certificate invariant `CI` for the definitions READ OFF THE CURRENT STRUCTURE (`W.env`).
 
 `step_ciw`: one operation, given that its clearing covers what it changes (`StepCovers`) – which is
-* proved for the value-layer operations and for `new_space`, `new_cells`, `set_cells_property`,
-  `del_cells`, `space.name = v`, `del_ref`, `add_bases`, `remove_bases` (`stepCovers_of_proved`:
-  from `SM.Inv` alone), and
+* proved for the value-layer operations and for `new_space`, `del space`, `new_cells`,
+  `set_cells_property`, `del_cells`, `space.name = v`, `del_ref`, `add_bases`, `remove_bases`
+  (`stepCovers_of_proved`: from `SM.Inv` alone), and
 * decidable in general (`stepCovers_of_check`: the Boolean `Edit.stepCovered`), which is what remains
-  as a hypothesis for `del space` and `rename_cells` (`Proved`).
+  as a hypothesis for `rename_cells` (`Proved`).
 -/
 namespace MxModel.Edit
 open MxModel.Exec MxModel.C02 MxModel.SM
@@ -30,7 +30,6 @@ def StepCovers (w : W) : Op → Prop
 
 /-- the operations for which coverage is a theorem -/
 def Proved : Op → Bool
-  | .struct (.delSpace _) => false
   | .struct (.renameCells _ _ _) => false
   | _ => true
 
@@ -52,7 +51,7 @@ theorem stepCovers_of_proved (w : W) (op : Op) (hi : SM.Inv w.sm) (hp : Proved o
     have hi' := inv_apply P.kw w.sm st' o hi hop
     cases o with
     | newSpace parent name bases refs => exact covers_newSpace P.kw _ hi hi' parent name bases refs hop
-    | delSpace p => cases hp
+    | delSpace p => exact covers_delSpace P.kw _ hi hi' p hop
     | newCells p name fname v => exact covers_newCells P.kw _ hi hi' p name fname v hop
     | setFormula p name v => exact covers_setFormula P.kw _ hi hi' p name v hop
     | delCells p name => exact covers_delCells P.kw _ hi hi' p name hop
@@ -131,8 +130,8 @@ theorem step_ciw (ho : StrictOrder lt) (w : W) (op : Op) (hw : WF (w.env P) lt) 
 
 variable (P lt)
 
-/-- the definitions stay in the regime after every operation, and the clearing of `del space` /
-`rename_cells` steps is checked (`stepCovered`, decidable) -/
+/-- the definitions stay in the regime after every operation, and the clearing of `rename_cells` steps
+is checked (`stepCovered`, decidable) -/
 def Admissible : W → List Op → Prop
   | _, [] => True
   | w, op :: ops =>
